@@ -650,3 +650,25 @@ def rule_N3_overrides(F, R):
                 R.violation("N3o", it["path"], "is_empty-override-opaque", "%s overrides is_empty without consulting the unsynchronised operations" % im["self"], where(b))
             else:
                 R.ok("N3o", "%s overrides is_empty consistently" % im["self"], where(b))
+
+
+def rule_D6(F, R):
+    R.begin("D6", "the per-handle SQLite storage object holds no replica data (tasks, operations, working-set entries) between transactions: another handle's commit would not be seen")
+    n = 0
+    for im in F.impls:
+        if not (im.get("trait") or "").endswith("WrappedStorage") or "sqlite" not in im["self"]:
+            continue
+        adt = F.adts.get(im["self"])
+        if adt is None:
+            R.missing("D6", "struct %s" % im["self"])
+            continue
+        n += 1
+        bad = []
+        for f in adt["variants"][0]["fields"]:
+            if re.search(r"uuid::Uuid|TaskMap|operation::Operation|HashMap<|Vec<|BTreeMap<|HashSet<", f["ty"]):
+                bad.append((f["name"], f["ty"]))
+        if bad:
+            R.violation("D6", im["self"], "data-cached-in-handle:%s" % bad[0][0], "%s keeps `%s: %s` across transactions; commits made through other handles or processes are not reflected in it" % (im["self"], bad[0][0], bad[0][1]), loc(adt["sp"]))
+        else:
+            R.ok("D6", "%s fields: %s" % (im["self"], [f["name"] for f in adt["variants"][0]["fields"]]), loc(adt["sp"]))
+    R.floor("D6", "SQLite storage handle structs", n, 1)
